@@ -124,7 +124,49 @@ def assoc_partitions(F, an):
     for k, b in sorted(by_impl.items()):
         if b not in parts:
             parts.append(b)
-    return parts or [{}]
+    parts = parts or [{}]
+    # refine by LM-OTS parameter row (w, p, ls, type) per hash size: relations such as
+    # floor((p-1)*w/8) <= n+1 become provable without a relational domain
+    try:
+        from . import paramtable as pt
+        from .api import Api
+        A = Api(F)
+        f, padt, order, rows = pt.constructor_table(F, an, A.type_path("LmotsAlgorithm"))
+        tr = pt.hash_trait(F)
+        out = []
+        for b in parts:
+            ev = pt.eval_rows(F, an, f, order, rows, b)
+            sub = []
+            for disc, r in sorted(ev.items(), key=lambda kv: str(kv[0])):
+                if r is None:
+                    continue
+                fb = dict(b)
+                okr = True
+                for fld, iv in r.items():
+                    if fld.startswith("#"):
+                        continue
+                    if iv is None or iv[0] != iv[1]:
+                        okr = False
+                    else:
+                        fb[(padt, fld)] = iv
+                if okr:
+                    sub.append(fb)
+            out.extend(sub or [b])
+        return out
+    except Exception:
+        return parts
+
+
+def slice_fields(F):
+    """(adt, field) of every slice-reference / fixed-capacity-vector typed field of a local ADT."""
+    out = []
+    for p, a in F.adts.items():
+        for v in a["variants"]:
+            for fl in v["fields"]:
+                t = fl["ty"]
+                if (t.get("k") == "ref" and t["ty"].get("k") == "slice") or (t.get("k") == "adt" and t.get("path") == "tinyvec::arrayvec::ArrayVec"):
+                    out.append((p, fl["name"]))
+    return out
 
 
 def discharge_with_ia(F, an, entries, sites, tree=None):
@@ -136,6 +178,11 @@ def discharge_with_ia(F, an, entries, sites, tree=None):
         with bind_assoc(an, binding):
             an.sites = {}
             an._reached = {}
+            an.establish_field_lens(slice_fields(F))
+            an.sites = {}
+            an._reached = {}
+            an.memo = {}
+            an.ctx_count = {}
             _one_pass(F, an, entries, sites, tree)
             for s in sites:
                 per_site[id(s)].append((s.status, s.detail))
@@ -248,3 +295,166 @@ def decreasing(ex, d, v):
         c = e[3][1]
         return (e[1] == "Div" and c >= 2) or (e[1] == "Sub" and c >= 1) or (e[1] == "Shr" and c >= 1)
     return False
+
+
+LEN_NEUTRAL = {
+    "tinyvec::arrayvec::ArrayVec::as_slice", "tinyvec::arrayvec::ArrayVec::as_mut_slice", "tinyvec::arrayvec::ArrayVec::len",
+    "tinyvec::arrayvec::ArrayVec::is_empty", "tinyvec::arrayvec::ArrayVec::capacity", "tinyvec::arrayvec::ArrayVec::get_mut",
+    "<tinyvec::arrayvec::ArrayVec<A> as core::ops::deref::Deref>::deref", "<tinyvec::arrayvec::ArrayVec<A> as core::ops::deref::DerefMut>::deref_mut",
+    "<tinyvec::arrayvec::ArrayVec<A> as core::ops::index::Index<I>>::index", "<tinyvec::arrayvec::ArrayVec<A> as core::ops::index::IndexMut<I>>::index_mut",
+    "core::slice::copy_from_slice", "core::slice::index::index", "core::slice::index::index_mut", "core::slice::iter", "core::slice::iter_mut",
+    "core::slice::len", "core::slice::get", "core::slice::get_mut", "core::slice::fill",
+}
+LEN_GROWING = {"tinyvec::arrayvec::ArrayVec::push": "push", "tinyvec::arrayvec::ArrayVec::extend_from_slice": "extend"}
+
+
+def loop_trip(F, an, f, header, body, loops):
+    """Trip bound of a natural loop: the IA-recorded bound of the `next` call that sits in this loop
+    but in no strictly smaller loop."""
+    inner = [b2 for h2, b2 in loops if b2 < body]
+    cands = []
+    for b in body:
+        if any(b in i for i in inner):
+            continue
+        t = f.blocks[b]["term"]
+        if t["k"] == "call":
+            c = core.callee_of(t)
+            if c and (c.get("method") == "next" or core.strip_generics(c["path"]).endswith("::next")):
+                cands.append(b)
+    if len(cands) != 1:
+        return None
+    return an.trip.get((f.path, cands[0]))
+
+
+ELEMENT_ACCESS = {
+    "<tinyvec::arrayvec::ArrayVec<A> as core::ops::deref::DerefMut>::deref_mut", "<tinyvec::arrayvec::ArrayVec<A> as core::ops::index::IndexMut<I>>::index_mut",
+    "tinyvec::arrayvec::ArrayVec::as_mut_slice", "tinyvec::arrayvec::ArrayVec::get_mut", "tinyvec::arrayvec::ArrayVec::iter_mut",
+    "tinyvec::arrayvec::ArrayVec::last_mut", "tinyvec::arrayvec::ArrayVec::first_mut",
+}
+
+
+def vector_escapes(f, v, path):
+    """Callees (other than growth / element access) that receive a `&mut` to the vector at (v, path) or to
+    an aggregate containing it.  References obtained through element access cannot change its length."""
+    bad = []
+    for b, i, st in f.iter_stmts():
+        if st["k"] != "assign" or st["rv"]["k"] not in ("ref", "rawptr") or st["rv"].get("bk") != "mut" or f.blocks[b]["cleanup"]:
+            continue
+        pl = st["rv"]["place"]
+        if pl["local"] != v:
+            continue
+        bp = []
+        okp = True
+        for e in pl["proj"]:
+            if e["k"] == "field":
+                bp.append(e.get("name", str(e["i"])) if "adt" in e else str(e["i"]))
+            elif e["k"] in ("deref",):
+                continue
+            else:
+                okp = False
+        bp = tuple(bp)
+        # borrow of the vector itself, or of something containing it
+        if not (bp == path[: len(bp)]):
+            continue
+        if not okp or st["place"]["proj"]:
+            bad.append("stored")
+            continue
+        seen = set()
+        work = [st["place"]["local"]]
+        while work:
+            x = work.pop()
+            if x in seen:
+                continue
+            seen.add(x)
+            for bb, ii, kind, item in flow.uses_of_local(f, x):
+                if f.blocks[bb]["cleanup"]:
+                    continue
+                if kind == "stmt":
+                    rv = item["rv"]
+                    if rv["k"] in ("ref", "use", "cast", "rawptr") and not item["place"]["proj"]:
+                        work.append(item["place"]["local"])
+                    else:
+                        bad.append("stored")
+                elif kind == "call":
+                    pth = core.strip_generics(core.callee_path(item) or "?")
+                    if pth in LEN_GROWING or pth in ELEMENT_ACCESS or pth in LEN_NEUTRAL:
+                        continue
+                    bad.append(pth)
+                elif kind != "drop":
+                    bad.append(kind)
+    return bad
+
+
+def capacity_budget(F, an, sites):
+    """Idiom: a vector created empty in this function (directly, or as a field of a value created by a
+    local `default()`), grown only by push / extend_from_slice sites whose (increment x enclosing loop trip
+    counts), summed over all sites, stays within the capacity."""
+    by_fn = {}
+    for s in sites:
+        if s.status is None and s.kind == "capacity" and s.callee in LEN_GROWING:
+            by_fn.setdefault(s.f.path, []).append(s)
+    for fp, ss in by_fn.items():
+        f = F.fns[fp]
+        loops = f.natural_loops()
+        for s in ss:
+            t = f.blocks[s.bb]["term"]
+            own = flow.resolve_owner_path(f, t["args"][0], want_mut=True)
+            if own is None:
+                continue
+            v, path = own
+            aty = core.op_place(t["args"][0])["ty"]
+            cap = ia.type_cap(aty)
+            if cap is None:
+                continue
+            defs = [d for d in f.defs_of(v) if not f.blocks[d[0]]["cleanup"]]
+            if len(defs) != 1 or defs[0][1] != "term":
+                s.detail += " | budget: owner is not created by a single call"
+                continue
+            dterm = defs[0][2]
+            dp = core.strip_generics(core.callee_path(dterm) or "")
+            empty = False
+            if not path and (dp == "tinyvec::arrayvec::ArrayVec::new" or dp.endswith("::default")):
+                empty = True
+            else:
+                tps = F.call_targets(f, dterm)
+                if len(tps) == 1 and not dterm["args"]:
+                    r = an.call_local(tps[0], [])
+                    empty = r.get(path + ("#len",)) == (0, 0)
+            if not empty:
+                s.detail += " | budget: vector not known to be created empty (%s)" % dp
+                continue
+            bad = vector_escapes(f, v, path)
+            if bad:
+                s.detail += " | budget: vector escapes to %s" % bad[:2]
+                continue
+            total = 0
+            ok = True
+            parts = []
+            for b, t2 in f.calls():
+                if f.blocks[b]["cleanup"]:
+                    continue
+                p2 = core.strip_generics(core.callee_path(t2) or "")
+                if p2 in LEN_GROWING and flow.resolve_owner_path(f, t2["args"][0], want_mut=True) == own:
+                    amt = an.incr.get((fp, b))
+                    if amt is None:
+                        ok = False
+                        break
+                    mult = 1
+                    for h, body in loops:
+                        if b in body:
+                            tr = loop_trip(F, an, f, h, body, loops)
+                            if tr is None:
+                                ok = False
+                                break
+                            mult *= tr
+                    if not ok:
+                        break
+                    total += amt * mult
+                    parts.append("%dx%d" % (amt, mult))
+            if ok and total <= cap:
+                s.status = "budget"
+                s.detail = "capacity budget: %s = %d <= %d" % (" + ".join(parts), total, cap)
+            elif ok:
+                s.detail += " | budget: %s = %d > capacity %d" % (" + ".join(parts), total, cap)
+            else:
+                s.detail += " | budget: a loop trip count or increment is unknown"
